@@ -219,7 +219,7 @@ def verify_contract(prop, c, rep, tier, known):
                 continue
             if path.outcome == 'exc' and isinstance(path.value, AssertionError):
                 ob = Ob('%s/%s/%s/assert-safety#%d' % (prop, c.id, label, pi), c, cfg, 'assert-safety', c.level)
-                _finish_failed(ob, rep, case, path, None, 'assert statement of the real function fired under the precondition: %r' % (path.value,), known)
+                _finish_failed(ob, rep, case, path, None, 'assert statement of the real function fired under the precondition: %s\n%s' % (_safe_str(path.value), ''.join(traceback.format_tb(path.value.__traceback__)[-3:])), known)
                 continue
             if path.outcome == 'exc' and not isinstance(path.value, tuple(c.allowed_exc)):
                 ob = Ob('%s/%s/%s/no-unexpected-exception#%d' % (prop, c.id, label, pi), c, cfg, 'no-unexpected-exception', c.level)
@@ -248,7 +248,10 @@ def _safe_str(e):
     try:
         return str(e)
     except BaseException:
-        return '<unprintable: symbolic message>'
+        try:
+            return '<%s with symbolic arguments>' % type(e).__name__
+        except BaseException:
+            return '<unprintable>'
 
 
 def _matching_known(ob, known):
